@@ -491,7 +491,7 @@ func discharged(c *Ctx, p *packages.Package, fd *ast.FuncDecl, rs *ast.RangeStmt
 	if obj == nil {
 		obj = info.Defs[id]
 	}
-	sorted := false
+	sorted, lossy := false, ""
 	ast.Inspect(fd.Body, func(n ast.Node) bool {
 		call, ok := n.(*ast.CallExpr)
 		if !ok || call.Pos() < rs.End() || len(call.Args) == 0 {
@@ -503,9 +503,17 @@ func discharged(c *Ctx, p *packages.Package, fd *ast.FuncDecl, rs *ast.RangeStmt
 		}
 		if aid, ok := ast.Unparen(call.Args[0]).(*ast.Ident); ok && info.Uses[aid] == obj {
 			sorted = true
+			if len(call.Args) == 2 {
+				if why := lossyComparator(c, p, call.Args[1]); why != "" {
+					lossy = why
+				}
+			}
 		}
 		return true
 	})
+	if sorted && lossy != "" {
+		return false, "it is sorted afterwards, but " + lossy
+	}
 	if sorted {
 		return true, "sorted after the loop"
 	}
@@ -637,13 +645,17 @@ func runC15(c *Ctx) {
 					return true
 				}
 				for _, lk := range leaks {
-					if ok, how := discharged(c, p, fd, rs, lk); ok {
+					ok, how := discharged(c, p, fd, rs, lk)
+					if ok {
 						c.Pass("R15.1", key+": "+lk.what, lk.pos, "discharged: "+how)
 						continue
 					}
+					if how == "" {
+						how = "there is no later sort"
+					}
 					c.Fail("R15.1", key+": "+lk.what, lk.pos,
-						"iteration order is unspecified ("+why+") and the loop body "+lk.what+" without a later sort: two runs on the same specification can produce different bytes or diagnostics",
-						"any specification exercising this loop with two or more elements, run twice")
+						"iteration order is unspecified ("+why+") and the loop body "+lk.what+"; "+how+": two runs on the same specification can produce different bytes or diagnostics",
+						"any specification exercising this loop with two or more elements (that the comparator calls equal, if there is one), run twice")
 				}
 				return true
 			})
@@ -1174,4 +1186,52 @@ func isErrorish(t types.Type) bool {
 		return isErrorish(pt.Elem())
 	}
 	return false
+}
+
+
+// lossyComparator: the comparator's last word on two elements (its final return) compares values obtained from them through a
+// function call that is not a conversion (strings.ToLower, len, a hash): two different elements can then compare equal, and the
+// order of equal elements after the sort is that of the unordered collection they came from. Returns the reason, or "".
+func lossyComparator(c *Ctx, p *packages.Package, cmpExpr ast.Expr) string {
+	info := p.TypesInfo
+	var body *ast.BlockStmt
+	switch v := ast.Unparen(cmpExpr).(type) {
+	case *ast.FuncLit:
+		body = v.Body
+	case *ast.Ident:
+		if cf, ok := info.Uses[v].(*types.Func); ok && cf.Pkg() != nil && strings.HasPrefix(cf.Pkg().Path(), modPath) {
+			if cd := declOfFunc(p, cf); cd != nil {
+				body = cd.Body
+			}
+		}
+	}
+	if body == nil || len(body.List) == 0 {
+		return ""
+	}
+	ret, ok := body.List[len(body.List)-1].(*ast.ReturnStmt)
+	if !ok || len(ret.Results) != 1 {
+		return ""
+	}
+	call, ok := ast.Unparen(ret.Results[0]).(*ast.CallExpr)
+	if !ok || len(call.Args) != 2 {
+		return ""
+	}
+	for _, a := range call.Args {
+		lossy := ""
+		ast.Inspect(a, func(n ast.Node) bool {
+			inner, ok := n.(*ast.CallExpr)
+			if !ok {
+				return true
+			}
+			if tv, ok := info.Types[inner.Fun]; ok && tv.IsType() {
+				return true // a conversion keeps distinct values distinct (string(x), []rune(x))
+			}
+			lossy = types.ExprString(inner.Fun)
+			return false
+		})
+		if lossy != "" {
+			return "the comparator's last comparison is between " + types.ExprString(call.Args[0]) + " and " + types.ExprString(call.Args[1]) + ": " + lossy + " can make two different elements equal, and the sort then leaves them in the order of the unordered collection"
+		}
+	}
+	return ""
 }
